@@ -196,6 +196,18 @@ func (r *Run) Finish() {
 		sort.Strings(ks)
 		cov["known_findings_seen"] = ks
 	}
+	if os.Getenv("VERIF_RACE_RAN") == "1" {
+		rp := map[string]any{"ran": true, "iterations": os.Getenv("VERIF_RACE_ITERS_DONE"), "data_races_reported": false}
+		if rep := os.Getenv("VERIF_RACE_REPORT"); rep != "" {
+			rp["data_races_reported"] = true
+			rp["report"] = rep
+			r.mu.Unlock()
+			frame := raceFrame(rep)
+			r.Violation(r.ID+":data-race:"+frame, "the free-running -race pass over the same harness bodies reported a data race in "+frame+" (report: "+rep+")", map[string]any{"report": rep})
+			r.mu.Lock()
+		}
+		cov["race_pass"] = rp
+	}
 	// stale known findings (listed but not reproduced) are reported, not failed:
 	stale := []string{}
 	for k := range r.known {
@@ -253,3 +265,29 @@ func Infra(format string, a ...any) {
 	fmt.Fprintf(os.Stderr, "INFRA-ERROR: "+format+"\n", a...)
 	os.Exit(2)
 }
+
+// raceFrame extracts the first /repo frame of a race report (stable finding key).
+func raceFrame(path string) string {
+	b, err := os.ReadFile(path)
+	if err != nil {
+		return "unknown"
+	}
+	lines := strings.Split(string(b), "\n")
+	for i, l := range lines {
+		if strings.Contains(l, "/repo/") && i > 0 {
+			fn := strings.TrimSpace(lines[i-1])
+			if j := strings.Index(fn, "("); j > 0 {
+				fn = fn[:j]
+			}
+			if strings.Contains(fn, "vshim") || strings.Contains(fn, "verifh") {
+				continue
+			}
+			return fn
+		}
+	}
+	return "unknown"
+}
+
+// RacePass reports whether this process is the auxiliary free-running -race pass; the
+// harness then runs its bodies natively (no scheduler) and exits 0.
+func RacePass() bool { return os.Getenv("VERIF_RACE_PASS") == "1" }
